@@ -36,7 +36,7 @@ ASSUMPTIONS = [
     "zigpy.util.Requests shim and the NCP model of rtmon/appharness.py, rtmon/ncpmodel.py",
 ]
 REACH = {t: ["versions_11", "all_256_message_types", "rssi_min", "rssi_max", "empty_payload", "max_payload",
-             "unicast", "multicast", "broadcast", "ignored_type", "join", "leave", "deny", "v14_layout",
+             "unicast", "multicast", "broadcast", "ignored_type", "join", "leave", "deny", "leave_of_known_device_same_nwk", "leave_of_known_device_other_nwk", "v14_layout",
              "pre_v14_layout", "versions_mixed_in_one_process", "own_address_changed_mid_run",
              "same_application_reconnected_to_another_version", "join_callbacks_back_to_back",
              "unicast_during_network_info_reload"] for t in ("quick", "thorough")}
@@ -86,6 +86,9 @@ def shards(tier, seed):
     return out
 
 
+KNOWN = {bytes([0x10 + k, 0x22, 0x33, 0x44, 0x55, 0x66, 0x77, 0x88]): n for k, n in enumerate((0x1234, 0x0001, 0xFFF0, 0xBEEF))}
+
+
 def run_shard(desc) -> Acc:
     logmode.apply(desc)
     acc = Acc()
@@ -106,6 +109,11 @@ def run_shard(desc) -> Acc:
             ap_.app.handle_join = lambda nwk, ieee, parent, *a, rec_=rec_, **k: rec_.append(("join", int(nwk), bytes(ieee.serialize()), int(parent)))
             ap_.app.handle_leave = lambda nwk, ieee, *a, rec_=rec_, **k: rec_.append(("leave", int(nwk), bytes(ieee.serialize())))
             acc.hit("v14_layout" if V_ >= 14 else "pre_v14_layout")
+            # devices the application already knows (under a network address that the callbacks below
+            # sometimes repeat and sometimes contradict): what the table says must not matter
+            import zigpy.types as ztk
+            for kb_, kn_ in KNOWN.items():
+                ap_.app.add_device(ztk.EUI64.deserialize(kb_)[0], kn_)
             ctxs.append([V_, ap_.app, ap_.ncp, int(ap_.app.state.node_info.nwk), rec_, ap_])
         types_seen = set()
         seq = 200
@@ -274,12 +282,17 @@ def run_shard(desc) -> Acc:
                 for b_ in range(burst):
                     st_ = rnd.choice([0, 1, 2, 3, 4, 5, 7, 6, rnd.randrange(256)])
                     dec = rnd.choice([0, 1, 2, 3, rnd.randrange(256)])
-                    f = dict(nwk=rnd.choice([0x0000, 0xFFFE, 0xFFFF, rnd.randrange(65536), rnd.randrange(65536)]),
-                             ieee=rnd.choice([rnd.randbytes(8), lumi, bytes([b_ + 1]) + lumi[1:5] + bytes([0x44, 0xEF, 0x54]), bytes(8), b"\xff" * 8]),
+                    kb_ = rnd.choice(list(KNOWN))
+                    f = dict(nwk=rnd.choice([0x0000, 0xFFFE, 0xFFFF, rnd.randrange(65536), rnd.randrange(65536), KNOWN[kb_]]),
+                             ieee=rnd.choice([rnd.randbytes(8), lumi, bytes([b_ + 1]) + lumi[1:5] + bytes([0x44, 0xEF, 0x54]), bytes(8), b"\xff" * 8, kb_, kb_]),
                              status=st_, decision=dec, parent=rnd.choice([0x0000, 0xFFFF, rnd.randrange(65536)]))
                     fields_all.append({k: (v.hex() if isinstance(v, bytes) else v) for k, v in f.items()})
                     seq = (ncp.requests[-1][3] - 1) % 256 if ncp.requests else 200
                     frames.append(enc_tcjoin(V, seq, f))
+                    if f["ieee"] in KNOWN:
+                        acc.hit("known_device_same_nwk" if KNOWN[f["ieee"]] == f["nwk"] else "known_device_other_nwk")
+                        if st_ == 2:
+                            acc.hit("leave_of_known_device_same_nwk" if KNOWN[f["ieee"]] == f["nwk"] else "leave_of_known_device_other_nwk")
                     if st_ == 2:
                         want.append(("leave", f["nwk"], f["ieee"]))
                         acc.hit("leave")
